@@ -25,6 +25,7 @@ EXPLANATION = (
     "generation is registered under its module's id with the encoder and decoder of that same module, no id twice, equal key sets. R6 sub-length "
     "bookkeeping of the 0x1F and 0xC0 wrappers. R7 optional numeric fields are tested with `is None` in encoders when the falsy value is "
     "encodable. Value-level equality for every field value is not decided."
+    ' Rounds 7-8: R2 also: a header is refused only for a wrong prefix or inconsistent lengths (rejects-nothing-else); R8 classifies the 0xC0 decoders by the header class they receive.'
 )
 ASSUMPTIONS = ["struct pack/unpack layout as computed from the literal format strings", "a message object is an instance of exactly one class of its encoder's union annotation"]
 FLOORS = {"C03.R8": 20, "C03.R1": 30, "C03.R2": 8, "C03.R3": 120, "C03.R4": 8, "C03.R5": 40, "C03.R6": 8, "C03.R7": 4, "C03.R9": 1, "C03.R10": 1, "C03.R11": 1}
